@@ -280,6 +280,7 @@ func genCollect(repo string) ([]genDef, error) {
 		}
 	}
 	defs = append(defs, scanLimitDefs(repo, fset)...)
+	defs = append(defs, selfUpdateDef(repo, fset)...)
 	defs = append(defs, genDef{Name: "max_scan_token_size", Module: "Consts", Type: "N", Value: strconv.Itoa(bufio.MaxScanTokenSize), Comment: "bufio.MaxScanTokenSize of the Go toolchain that builds /repo"})
 	return defs, nil
 }
@@ -326,6 +327,9 @@ func genMain(args []string) {
 				val := "[]"
 				if f[2] == "N" {
 					val = "0"
+				}
+				if f[2] == "bool" {
+					val = "false"
 				}
 				defs = append(defs, genDef{Name: f[1], Module: f[0], Type: f[2], Value: val, Comment: "NOT FOUND in the sources any more (default value)"})
 			}
@@ -445,6 +449,37 @@ func findFunc(f *ast.File, name string) *ast.FuncDecl {
 // scanLimitDefs: for every line-reading site, the maximum line length its scanner
 // delivers: bufio.MaxScanTokenSize for a plain bufio.NewScanner, the helper's
 // configured maximum for utils.NewLineScanner.
+// selfUpdateDef: does internal/updater.Updater install through a configured updater value
+// (method call x.UpdateTo, runs the validator) or through the package-level selfupdate.UpdateTo?
+func selfUpdateDef(repo string, fset *token.FileSet) []genDef {
+	val := "false"
+	comment := "internal/updater/updater.go Updater: no UpdateTo call found"
+	f, err := parser.ParseFile(fset, filepath.Join(repo, "internal/updater/updater.go"), nil, 0)
+	if err == nil {
+		if fn := findFunc(f, "Updater"); fn != nil {
+			ast.Inspect(fn, func(n ast.Node) bool {
+				call, ok := n.(*ast.CallExpr)
+				if !ok {
+					return true
+				}
+				sel, ok := call.Fun.(*ast.SelectorExpr)
+				if !ok || sel.Sel.Name != "UpdateTo" {
+					return true
+				}
+				if id, ok := sel.X.(*ast.Ident); ok && id.Name == "selfupdate" {
+					val = "false"
+					comment = "internal/updater/updater.go Updater: package-level selfupdate.UpdateTo (no validator)"
+				} else {
+					val = "true"
+					comment = "internal/updater/updater.go Updater: UpdateTo on the configured updater (validator runs)"
+				}
+				return true
+			})
+		}
+	}
+	return []genDef{{Name: "self_update_validates", Module: "Consts", Type: "bool", Value: val, Comment: comment}}
+}
+
 func scanLimitDefs(repo string, fset *token.FileSet) []genDef {
 	def := strconv.Itoa(bufio.MaxScanTokenSize)
 	helper := def
